@@ -457,6 +457,40 @@ class Interp:
             return band(*[self.eq(a.f[k], b.f[k]) for k in a.f])
         if isinstance(a, Tu):
             return band(*[self.eq(x, y) for x, y in zip(a.items, b.items)])
+        if isinstance(a, Mp) and isinstance(b, Mp):
+            na = self.bi.count([p for p, k, v in a.e])
+            nb = self.bi.count([p for p, k, v in b.e])
+            parts = [veq(na, nb)]
+            for p, k, v in a.e:
+                if p is False or k is None:
+                    continue
+                found, w = self.bi.map_lookup(b, k)
+                parts.append(bor(bnot(p), band(found, self.eq(v, w) if w is not None else False)))
+            return band(*parts)
+        if isinstance(a, HS) and isinstance(b, HS):
+            na = self.bi.count([p for p, k in a.e])
+            nb = self.bi.count([p for p, k in b.e])
+            return band(veq(na, nb), *[bor(bnot(p), self.bi.set_contains(b, k)) for p, k in a.e if p is not False and k is not None])
+        if isinstance(a, En) and isinstance(b, En) and not (a.name in ("Option", "Result", "Ordering")) or (isinstance(a, En) and any(isinstance(x, (Mp, HS, Vc)) for pl in a.pl.values() for x in (pl.values() if isinstance(pl, dict) else pl))):
+            # enum equality through self.eq so that payload maps/vecs/user eq are handled
+            if isinstance(b, En):
+                ta, tb = a.tag, b.tag
+                conds = [veq(I(ta), I(tb))]
+                for k in sorted(set(a.pl) & set(b.pl)):
+                    pa, pb = a.pl[k], b.pl[k]
+                    if isinstance(pa, dict):
+                        inner = band(*[self.eq(pa[f], pb[f]) for f in pa])
+                    else:
+                        inner = band(*[self.eq(x, y) for x, y in zip(pa, pb) if x is not None and y is not None])
+                    conds.append(bor(bnot(veq(I(ta), I(k))), inner))
+                return band(*conds)
+        if isinstance(a, Vc) and isinstance(b, Vc):
+            parts = [veq(I(a.n), I(b.n))]
+            for i in range(min(len(a.items), len(b.items))):
+                if a.items[i] is None or b.items[i] is None:
+                    continue
+                parts.append(bor(bnot(self.bi.vec_in(a, i)), self.eq(a.items[i], b.items[i])))
+            return band(*parts)
         if isinstance(a, S) and isinstance(b, I) or isinstance(a, I) and isinstance(b, S):
             raise Unsupported("eq str/int")
         return veq(a, b)
